@@ -273,6 +273,10 @@ void c01_case(Ctx &c) {
         VLOG(c, "restart");
         for (int i = 0; i < 3; i++) apptm[i] = -1;
         for (auto h : hbc) { h->Tmr = -1; h->Next = nullptr; h->Node = nullptr; h->Event = 0; h->State = CO_INVALID; }
+        // a third of the restarts are no power cycle: the application initialises the stack a second time on the memory as it is (decided from the
+        // traffic so far, no tape choice) - with or without CONodeStop before, the hardware timer of the node's previous life possibly still armed
+        if ((s.tx_total + (uint64_t)s.tick) % 3 == 0) { if ((s.tx_total + (uint64_t)s.tick) % 2) { s.api_begin(); CONodeStop(s.node); s.api_end("CONodeStop"); } s.reinit(); c.cls("second-initialisation-on-the-same-memory"); }
+        else
         s.init(); if (s.init_err == CO_ERR_OBJ_INIT || s.init_err == CO_ERR_DICT_INIT) { c.cls("restart-with-contradicting-dictionary"); goto done; } if (c.t.chance(230)) s.start(); nid = s.node->NodeId; after("a restart"); break;
       }
     }
